@@ -38,11 +38,11 @@ Section Compose.
   Let unconflicted := snd (split_conflicted shG false sets).
   Let cm := dedup_events conflicted.
   Let full := conflicted ++ auth_difference_new shE true authmap conflicted sets.
-  Let control := control_events cm unconflicted full.
-  Let others := other_events unconflicted full control.
+  Let control := control_events cm [] full.
+  Let others := other_events [] full control.
 
   Variable rank : bytes -> nat.
-  Hypothesis acyclic_auth : forall a b, auth_step authmap a b -> rank (e_id b) < rank (e_id a).
+  Hypothesis control_acyclic : acyclic e_auth (dedup_events control).
   Hypothesis acyclic_cm : forall a b, auth_step cm a b -> rank (e_id b) < rank (e_id a).
   Hypothesis set_events_are_auth_events :
     forall s o y, In s sets -> In o s -> find_event (e_id o) authmap = Some y -> y = o.
@@ -69,12 +69,14 @@ Section Compose.
       (forall x, In x full <-> In x conflicted \/ spec_auth_difference authmap sets x
                                \/ spec_conflicted_subgraph authmap conflicted sets x) /\
       (* power set *)
-      (forall x, In x control <-> spec_power_set cm unconflicted full x) /\
+      (forall x, In x control <-> spec_power_set cm [] full x) /\
       (* the rest *)
-      (forall x, In x others <-> In x full /\ has_event (e_id x) unconflicted = false /\
-                                 is_control_event x = false /\ has_event (e_id x) control = false) /\
+      (forall x, In x others <-> In x full /\ is_control_event x = false /\ has_event (e_id x) control = false) /\
+      (* the distinct power events in the order of 6.2 r1: a topological permutation *)
+      topological_permutation e_auth (dedup_events control)
+                              (power_order shP priv cl ud authmap None (dedup_events control)) /\
       (* iterative auth checks from the empty state: power events, then the rest by mainline *)
-      spec_iterative_auth allowed rejected authmap [] (power_order shP priv cl ud authmap None control) st1 /\
+      spec_iterative_auth allowed rejected authmap [] (power_order shP priv cl ud authmap None (dedup_events control)) st1 /\
       spec_iterative_auth allowed rejected authmap st1
                           (mainline_order authmap (smap_get st1 (t_power, [])) others) st2 /\
       (* unconflicted state re-applied last *)
@@ -84,7 +86,7 @@ Section Compose.
     unfold resolve_v2_new. rewrite match3_auth by exact auth_nonempty.
     fold conflicted unconflicted authmap cm full control others.
     unfold resolve_tail. cbn [r_state smap_get].
-    set (csorted := power_order shP priv cl ud authmap None control).
+    set (csorted := power_order shP priv cl ud authmap None (dedup_events control)).
     set (r1 := auth_and_apply allowed rejected authmap (mkR [] []) csorted).
     set (osorted := mainline_order authmap (smap_get (r_state r1) (t_power, [])) others).
     set (r2 := auth_and_apply allowed rejected authmap r1 osorted).
@@ -92,14 +94,16 @@ Section Compose.
     split; [intro e; apply (split_unconflicted_is_spec shG shG_perm sets sets_repeat_free ids_ok)|].
     split.
     { intro x. unfold full. rewrite in_app_iff.
-      rewrite (auth_difference_v21_spec shE authmap conflicted sets rank x shE_perm acyclic_auth set_events_are_auth_events).
+      rewrite (auth_difference_v21_spec shE authmap conflicted sets x shE_perm set_events_are_auth_events).
       reflexivity. }
     split; [intro x; apply (power_set_spec cm rank acyclic_cm)|].
     split.
-    { intro x. unfold others, other_events. rewrite filter_In, !andb_true_iff, !negb_true_iff. tauto. }
+    { intro x. unfold others, other_events. rewrite filter_In, !andb_true_iff, !negb_true_iff. simpl. tauto. }
+    split.
+    { apply power_order_topological; [exact shP_perm|apply dedup_nodup|exact control_acyclic]. }
     split.
     { apply (iterative_auth_spec allowed rejected authmap csorted (mkR [] [])); [apply smap_wf_nil|].
-      intros e He. apply needs. apply control_supplied. eapply power_order_in; [exact shP_perm|exact He]. }
+      intros e He. apply needs. apply control_supplied. apply dedup_in. eapply power_order_in; [exact shP_perm|exact He]. }
     split; [|reflexivity].
     apply (iterative_auth_spec allowed rejected authmap osorted r1).
     - apply auth_and_apply_wf. apply smap_wf_nil.
